@@ -47,6 +47,10 @@ def legacy_specs(P: str = "G", runtime_only: bool = False) -> list[CS]:
         # child fields declared compare=False (still children: attached, counted into content ids, propagated through)
         CS(f"{P}Ann", (N,), [FS("target", "child", f"{N} | None", "opt", (N,), default="None"), FS("aside", "child", f"{N} | None", "opt", (N,), compare=False, default="None"), FS("extras", "child", f"tuple[{N}, ...]", "tuple", (N,), compare=False, default="()")]),
         # a leaf subclass that nevertheless has a child (fits narrowly typed fields such as Lst.opt)
+        # a subclass that re-declares a field of its base as init=False (a fixed value: not a replaceable key there, while it
+        # is one in the base class)
+        CS(f"{P}Lbl", (N,), [FS("label", "prop", "str", "str", default='""'), FS("kid", "child", f"{N} | None", "opt", (N,), default="None"), FS("more", "child", f"tuple[{N}, ...]", "tuple", (N,), default="()")]),
+        CS(f"{P}FixedLbl", (f"{P}Lbl",), [FS("label", "prop", "str", "str", init=False, default='"fixed"')]),
         # keyword-only child fields (field(kw_only=True)): children like any other
         CS(f"{P}Kw", (N,), [FS("first", "child", f"{N} | None", "opt", (N,), default="None"), FS("body", "child", f"tuple[{N}, ...]", "tuple", (N,), kw_only=True, default="()"), FS("last", "child", f"{N} | None", "opt", (N,), kw_only=True, default="None"), FS("v", "prop", "int", "int", kw_only=True, default="0")]),
         CS(f"{P}Wrap", (f"{P}Leaf",), [FS("inner", "child", f"{N} | None", "opt", (N,), default="None")]),
